@@ -203,3 +203,9 @@ CONTRACTS.append(Contract(
     descr="every parsed parallelism value incl. 0 and negatives",
 ))
 MUTANTS.append(("ParallelismMixin: parallelism 0 falls back to the class default", "passlib/utils/handlers.py", "        if parallelism is None:\n            assert validate_default_value(\n                self, self.parallelism, self._norm_parallelism, param=\"parallelism\"\n            )\n        else:\n            self.parallelism = self._norm_parallelism(parallelism)", "        if parallelism:\n            self.parallelism = self._norm_parallelism(parallelism)\n        else:\n            assert validate_default_value(\n                self, self.parallelism, self._norm_parallelism, param=\"parallelism\"\n            )", "refute", "ParallelismMixin.__init__"))
+
+# ---- "an altered setting never verifies": libpass' bcrypt-sha256 keys its pre-hash with the record's SALT FIELD, so a record whose
+#      salt/digest separator was moved (same bcrypt string, another salt field) does not verify (contract shared with C20) ----
+from contracts import c20_libpass as _lp20  # noqa: E402
+
+CONTRACTS += [c for c in _lp20.CONTRACTS if c.id == "libpass.BcryptSHA256Hasher.verify"]
